@@ -2,13 +2,27 @@
 
 Correspondence: results of object construction for all subsets of supplied properties vs the
 Lean model.  Oracle: direct inspection of the returned object against each declared
-property's default (converted by calling the property's element on it, raw when invalid)."""
+property's default (converted by calling the property's element on it, raw when invalid), at
+every nesting level of the data.
+
+The property is a statement about (schema, data) pairs, so an answer may depend neither on what
+the element was used for before nor on which kind of dict the data arrives in.  Two families make
+that explicit:
+ * operation histories: every (schema, values) case is a *sequence* on one element (the failing
+   case carries the whole sequence and its position, so a replay reproduces the history), and
+   `history_case` resolves each default several times, by every route (the class called with no
+   value, a property's element called with no value, an outer object built from data omitting
+   the property), over valid and invalid class-level defaults of every kind;
+ * pre-converted data: the data (or its members) is first passed through a generic untyped
+   element - what a caller does who reads an envelope first and hands the payload to the
+   specific schema afterwards - and must then be filled with defaults exactly like plain dicts."""
+import copy
 import itertools
 import random
 import re
 
 from statham.schema.constants import NotPassed
-from statham.schema.elements import Object
+from statham.schema.elements import Element, Object
 from statham.schema.exceptions import ValidationError
 
 from harness import core
@@ -35,17 +49,30 @@ def expected_default(elem):
         return {"exc": type(exc).__name__}
 
 
-def check_object(el, v, res, case, out, stats, model_agrees):
-    """res = el(v) succeeded, v is a dict."""
+def bump(stats, key, n=1):
+    stats[key] = stats.get(key, 0) + n
+
+
+def _mapping(res):
+    m = res._dict if isinstance(res, Object) else res  # pylint: disable=protected-access
+    return m if isinstance(m, dict) else None
+
+
+def check_object(el, v, res, case, out, stats, model_agrees, twin=None, path=""):
+    """res = el(v') succeeded, where v' is the dict v, or v pre-converted by a generic element (then `twin` is the result
+    for the plain dict v).  Every declared property that v omits must hold its default; declared properties that v
+    supplies with an object are checked in the same way against their own element (the nested object is itself "built
+    from data that omits a property").  A listed region explains a failure only where the Lean model agrees with the
+    result for the plain data and - when the data was pre-converted - the plain-data result shows the very same value."""
     props = getattr(el, "properties", NotPassed())
     if isinstance(props, NotPassed) or not props:
         return
-    mapping = res._dict if isinstance(res, Object) else res  # pylint: disable=protected-access
-    if not isinstance(mapping, dict):
+    mapping = _mapping(res)
+    if mapping is None:
         return
+    twin_mapping = _mapping(twin) if twin is not None else None
     pats = getattr(el, "patternProperties", NotPassed())
     pats = {} if isinstance(pats, NotPassed) else pats
-    names = {n for n in props}
     for name, prop in props.items():
         src = prop.source or name
         region = None
@@ -59,21 +86,81 @@ def check_object(el, v, res, case, out, stats, model_agrees):
         if [p.source or n for n, p in props.items()].count(src) > 1:
             region = region or "C05-key-collision"
         if src in v:
-            continue  # supplied: covered by C04's oracle (the value itself must be there)
+            # supplied: the value itself is C04's business; a supplied *object* is data for the property's own schema
+            sub_v = v[src]
+            if region is None and isinstance(sub_v, dict) and name in mapping and _mapping(mapping[name]) is not None \
+                    and isinstance(getattr(prop.element, "properties", None), dict) and len(path) < 40:
+                bump(stats, "nested-object-checked")
+                sub_twin = twin_mapping.get(name) if twin_mapping is not None else None
+                check_object(prop.element, sub_v, mapping[name], case, out, stats, model_agrees, sub_twin, path + name + ".")
+            continue
         exp = expected_default(prop.element)
-        got = core.canon_rval(mapping.get(name, "<missing>")) if name in mapping else {"missing": 1}
-        stats["omitted-with-default" if exp != {"np": 1} else "omitted-no-default"] = stats.get("omitted-with-default" if exp != {"np": 1} else "omitted-no-default", 0) + 1
+        got = core.canon_rval(mapping[name]) if name in mapping else {"missing": 1}
+        kind = "omitted-with-default" if exp != {"np": 1} else "omitted-no-default"
+        bump(stats, ("nested-" if path else "") + kind)
+        if twin is not None:
+            bump(stats, "preconverted-" + ("nested-" if path else "") + kind)
+        same_as_plain = True
+        if twin is not None:
+            same_as_plain = twin_mapping is not None and name in twin_mapping and core.canon_rval(twin_mapping[name]) == got
         if got != exp:
-            fid = region if model_agrees else None
-            out.failures.append({"case": case, "what": f"omitted property {src!r} (attribute {name}): expected {exp}, result holds {got}", "finding": fid})
-            stats["default-fail-" + str(fid)] = stats.get("default-fail-" + str(fid), 0) + 1
+            fid = region if model_agrees and same_as_plain else None
+            out.failures.append({"case": case, "what": f"omitted property {src!r} (attribute {path}{name}): expected {exp}, result holds {got}", "finding": fid,
+                                 "region": region})
+            bump(stats, "default-fail-" + str(fid))
         elif isinstance(res, Object):
             try:
                 attr = core.canon_rval(getattr(res, name))
             except AttributeError:
                 attr = {"missing-attr": 1}
             if attr != exp:
-                out.failures.append({"case": case, "what": f"attribute {name} is {attr}, expected default {exp}", "finding": region if model_agrees else None})
+                out.failures.append({"case": case, "what": f"attribute {path}{name} is {attr}, expected default {exp}", "finding": region if model_agrees and same_as_plain else None,
+                                     "region": region})
+
+
+# ----------------------------------------------------------------------------- pre-converted data
+
+PRE_MODES = ["whole", "envelope", "members"]
+
+
+def preconvert(v, mode):
+    """The dict v as it reaches a caller who has already read it with a generic untyped element (every JSON object inside
+    has become the library's attribute-access dict): the whole value, the payload of an envelope, or only the members."""
+    generic = Element()
+    v = copy.deepcopy(v)        # the values of one sequence share members: whatever the generic element does to its input stays here
+    if mode == "whole":
+        return generic(v)
+    if mode == "envelope":
+        return generic({"kind": "payload", "payload": v})["payload"]
+    if mode == "members":
+        return {k: generic(x) for k, x in v.items()}
+    raise ValueError(mode)
+
+
+def _omits_default(el, v):
+    props = getattr(el, "properties", None)
+    if not isinstance(props, dict):
+        return False
+    return any((p.source or n) not in v and not isinstance(getattr(p.element, "default", NotPassed()), NotPassed) for n, p in props.items())
+
+
+def check_preconverted(el, v, plain_res, mode, case, out, stats, model_agrees):
+    """el(v) succeeded on the plain dict v; the same data, pre-converted, must get its defaults on the same terms."""
+    try:
+        v2 = preconvert(v, mode)
+    except Exception:  # noqa: BLE001 - the generic element itself failed: not this property's business
+        bump(stats, "preconvert-failed")
+        return
+    bump(stats, "preconverted-" + mode)
+    try:
+        res2 = el(v2)
+    except Exception as exc:  # noqa: BLE001
+        bump(stats, "preconverted-raised")
+        if _omits_default(el, v):
+            out.failures.append({"case": case, "what": f"data that is accepted as plain dicts raises {type(exc).__name__} when it was read by a generic element "
+                                 "before: the defaults of the omitted properties are not delivered", "finding": None})
+        return
+    check_object(el, v, res2, case, out, stats, model_agrees, twin=plain_res)
 
 
 def omission_oracle(el, v, case, out, stats, model_agrees=True):
@@ -112,39 +199,79 @@ def omission_oracle(el, v, case, out, stats, model_agrees=True):
     finding = "C05-explicit-required-list" if blamed and model_agrees else None
     stats["omission-oracle-fired-" + str(finding)] = stats.get("omission-oracle-fired-" + str(finding), 0) + 1
     out.failures.append({"case": case, "what": f"rejected although the same data with the defaults of the omitted properties {sorted(fill)} written out "
-                         "is accepted: omitting a property that has a default became an error", "finding": finding})
+                         "is accepted: omitting a property that has a default became an error", "finding": finding,
+                         "region": "C05-explicit-required-list" if blamed else None})
 
 
-def check_case(drv, schema, values, out, stats):
-    values = list(values) + [core.NP]
-    obs = observe(drv, schema, values, out, stats)
-    if obs is None:
-        return
-    el = obs["el"]
+NPJ = {"np": 1}
+
+
+def plain_arg(v):
+    return dict(NPJ) if isinstance(v, NotPassed) else v
+
+
+def arg_of(j):
+    return core.NP if isinstance(j, dict) and j == NPJ and type(j["np"]) is int else j
+
+
+def check_no_value(e, real, case, out, stats, what="called without a value"):
+    """`real` is the outcome of calling e with no value: its own default (converted when valid, raw when not), or the marker."""
+    exp = expected_default(e)
+    if real["r"] == "ok":
+        if real["v"] != exp and not (isinstance(exp, dict) and "exc" in exp):
+            out.failures.append({"case": case, "what": f"{what}: expected {exp}, got {real['v']}", "finding": None})
+    elif real["r"] == "reject":
+        out.failures.append({"case": case, "what": f"{what}: raised the validation error", "finding": None})
+    elif real["r"] in ("typeError", "exc", "recursion"):
+        bump(stats, "no-value-call-" + real["r"])
+        if not (isinstance(exp, dict) and "exc" in exp):
+            out.failures.append({"case": case, "what": f"{what}: raised {real.get('exc', real['r'])}", "finding": None})
+
+
+def check_sequence(el, schema, values, reals, agrees, pre, out, stats, note=None, upto=None):
+    """One element, a sequence of calls.  `reals[i]` is the outcome of the first call with values[i] (all of them made, in
+    order, before this runs); every value is then looked at in turn.  A failing case names the whole sequence and the
+    position, so that a replay goes through the same history on a fresh element."""
+    seq = {"schema": schema, "values": [plain_arg(x) for x in values], "pre": list(pre)}
     for i, v in enumerate(values):
-        real = obs["reals"][i]
-        agrees = obs["tree_ok"] and (obs["models"][i] == real or obs["models"][i]["r"] == "crash")
-        case = {"schema": schema, "value": obs["enc_args"][i]}
+        if upto is not None and i > upto:
+            break
+        real = reals[i]
+        case = {**seq, "index": i, "value": plain_arg(v)}
         if isinstance(v, NotPassed):
-            out.note_case(case, "default" in schema if isinstance(schema, dict) else False)
-            exp = expected_default(el)
-            if real["r"] == "ok":
-                if real["v"] != exp and "exc" not in exp:
-                    out.failures.append({"case": case, "what": f"called without a value: expected {exp}, got {real['v']}", "finding": None})
-            elif real["r"] == "reject":
-                out.failures.append({"case": case, "what": "calling without a value raised the validation error", "finding": None})
+            if note:
+                note(i, "default" in schema if isinstance(schema, dict) else False)
+            check_no_value(el, real, case, out, stats)
+            # and again: the answer to a call without a value does not wear off
+            bump(stats, "no-value-call-repeated")
+            check_no_value(el, core.real_call(el, core.NP), case, out, stats, "called without a value a second time")
             continue
         if real["r"] == "reject" and isinstance(v, dict):
-            stats["rejected-objects"] = stats.get("rejected-objects", 0) + 1
-            omission_oracle(el, v, case, out, stats, agrees)
+            bump(stats, "rejected-objects")
+            omission_oracle(el, v, case, out, stats, agrees[i])
         if real["r"] != "ok" or not isinstance(v, dict):
             continue
         try:
             res = el(v)
         except Exception:  # noqa: BLE001
             continue
-        out.note_case(case, True)
-        check_object(el, v, res, {"schema": schema, "value": v}, out, stats, agrees)
+        if note:
+            note(i, True)
+        check_object(el, v, res, case, out, stats, agrees[i])
+        if pre[i]:
+            check_preconverted(el, v, res, pre[i], case, out, stats, agrees[i])
+
+
+def check_case(drv, schema, values, out, stats, rng=None):
+    values = list(values) + [core.NP]
+    obs = observe(drv, schema, values, out, stats)
+    if obs is None:
+        return
+    el = obs["el"]
+    agrees = [obs["tree_ok"] and (obs["models"][i] == obs["reals"][i] or obs["models"][i]["r"] == "crash") for i in range(len(values))]
+    pre = [rng.choice(PRE_MODES) if rng is not None and isinstance(v, dict) and rng.random() < 0.6 else None for v in values]
+    check_sequence(el, schema, values, obs["reals"], agrees, pre, out, stats,
+                   note=lambda i, nontrivial: out.note_case({"schema": schema, "value": obs["enc_args"][i]}, nontrivial))
 
 
 def object_schema(rng, sg, depth=2, cls=None):
@@ -228,7 +355,10 @@ def dsl_case(drv, rng, out, stats):
             continue
         out.note_case({"element": dump, "value": enc}, True)
         stats["dsl-accepted"] = stats.get("dsl-accepted", 0) + 1
-        check_object(el, v, el(v), {"element": dump, "value": v}, out, stats, agrees)
+        res = el(v)
+        check_object(el, v, res, {"element": dump, "value": v}, out, stats, agrees)
+        mode = rng.choice(PRE_MODES)
+        check_preconverted(el, v, res, mode, {"element": dump, "value": v, "pre": mode}, out, stats, agrees)
 
 
 def build_chain(spec):
@@ -287,12 +417,137 @@ def inherit_case(rng, out, stats):
             check_object(cls, v, cls(v), case, out, stats, True)
 
 
+# ----------------------------------------------------------------------------- operation histories
+
+HIST_NAMES = ["a", "b", "a b", "class", "x-y", "é", "n$", "id"]      # no two of them share a Python name
+NOT_OBJECTS = [1, None, "x", [], True, 2.5]
+
+
+def class_with_default(rng, title):
+    """A model class (schema form) with a class-level default, and what kind of default that is."""
+    props = {"k": {"type": "integer"}, "m": {"type": "string", "default": rng.choice(["s", "", 3])}}
+    s = {"type": "object", "title": title, "properties": props}
+    kind = rng.choice(["valid-empty", "valid-filled", "wrong-member-type", "missing-required", "extra-member-closed", "nested-invalid",
+                       "nested-valid", "not-an-object"])
+    if kind == "valid-empty":
+        s["default"] = {}
+    elif kind == "valid-filled":
+        s["default"] = {"k": rng.choice([0, 3, -1]), **({"m": "t"} if rng.random() < 0.5 else {})}
+    elif kind == "wrong-member-type":
+        s["default"] = {"k": rng.choice(["three", None, 1.5, [1]])}
+    elif kind == "missing-required":
+        s["required"] = ["k"]
+        s["default"] = rng.choice([{}, {"m": "t"}])
+    elif kind == "extra-member-closed":
+        s["additionalProperties"] = False
+        s["default"] = {"k": 1, "zz": 1}
+    elif kind in ("nested-invalid", "nested-valid"):
+        props["sub"] = {"type": "object", "title": title + "Sub", "properties": {"q": {"type": "integer", "default": 5}, "r": {"type": "string"}}}
+        s["default"] = {"sub": {"q": "x"} if kind == "nested-invalid" else rng.choice([{}, {"q": 2}, {"r": "t"}])}
+    else:
+        s["default"] = rng.choice(NOT_OBJECTS)
+    return s, kind
+
+
+def history_schema(rng, sg, stats):
+    names = rng.sample(HIST_NAMES, rng.choice([2, 3, 4]))
+    props, kinds = {}, []
+    for i, n in enumerate(names):
+        k = rng.random()
+        if i == 0 or k < 0.35:
+            props[n], kind = class_with_default(rng, f"Inner{i}")
+            kinds.append(kind)
+        elif k < 0.5:
+            # an untyped object with its own default and defaulted members
+            props[n] = {"properties": {"p": {"default": rng.choice(DEFAULTS)}, "q": {"type": "integer", "default": rng.choice([1, "x"])}},
+                        "default": rng.choice([{}, {"p": 1}, {"q": "bad"}, 1])}
+        else:
+            sub = dict(sg.leaf())
+            sub.pop("title", None)
+            if rng.random() < 0.8:
+                sub["default"] = rng.choice(DEFAULTS)
+            if sub.get("type") == "object":
+                sub.pop("type")
+            props[n] = sub
+    s = {"properties": props}
+    if rng.random() < 0.6:
+        s["type"] = "object"
+        s["title"] = rng.choice(["Model", "Thing", "Cfg"])
+    if rng.random() < 0.3:
+        s["default"] = rng.choice([{}, {names[0]: 1}, {names[0]: {"k": 2}}, 1])
+    for kind in kinds:
+        bump(stats, "history-class-default-" + kind)
+    return s
+
+
+def run_history(el, schema, ops, out, stats, upto=None):
+    """ops: ["np"] - the element called with no value; ["np-prop", attribute] - a property's own element called with no
+    value; ["build", data] - the element called with data.  Each step is checked where it stands in the history."""
+    for step, op in enumerate(ops):
+        if upto is not None and step > upto:
+            break
+        case = {"schema": schema, "ops": ops, "step": step}
+        if op[0] == "np":
+            check_no_value(el, core.real_call(el, core.NP), case, out, stats, f"step {step}: called without a value")
+        elif op[0] == "np-prop":
+            props = getattr(el, "properties", None)
+            if not isinstance(props, dict) or op[1] not in props:
+                continue
+            e = props[op[1]].element
+            check_no_value(e, core.real_call(e, core.NP), case, out, stats, f"step {step}: element of property {op[1]} called without a value")
+        else:
+            v = op[1]
+            real = core.real_call(el, v)
+            if real["r"] == "reject":
+                omission_oracle(el, v, case, out, stats)
+            if real["r"] != "ok":
+                continue
+            try:
+                res = el(v)
+            except Exception:  # noqa: BLE001
+                continue
+            bump(stats, "history-builds-checked")
+            check_object(el, v, res, case, out, stats, True)
+
+
+def history_case(rng, sg, vg, out, stats):
+    """The same defaults resolved again and again on one element, by every route, in a random order."""
+    schema = history_schema(rng, sg, stats)
+    status, el = core.real_parse(schema)
+    if status != "ok":
+        bump(stats, "history-parse-" + status)
+        return
+    names = list(schema["properties"])
+    attrs = list(getattr(el, "properties", None) or {})
+    ops = []
+    for _ in range(rng.randint(5, 9)):
+        k = rng.random()
+        if k < 0.15:
+            ops.append(["np"])
+        elif k < 0.4 and attrs:
+            ops.append(["np-prop", rng.choice(attrs)])
+        else:
+            supplied = [n for n in names if rng.random() < 0.35]
+            ops.append(["build", {n: vg.aimed(schema["properties"][n], 2) for n in supplied}])
+    bump(stats, "history-cases")
+    bump(stats, "history-ops", len(ops))
+    before = len(out.failures)
+    run_history(el, schema, ops, out, stats)
+    for step, op in enumerate(ops):
+        out.note_case({"schema": schema, "ops": ops[:step + 1]}, True)
+    if len(out.failures) > before:
+        bump(stats, "history-failing-cases")
+
+
 def run(ctx, scale=1.0):
     rng = random.Random(ctx["seed"] + 5)
     out = Outcome()
     out.rule = ("object schemas (class-based and untyped, plain and renamed property names, valid and invalid defaults of every JSON kind, "
                 "nested object defaults, required/additionalProperties/patternProperties variations) x all subsets of supplied properties "
-                "(<= 16 per schema) plus the call without a value; a case is a (schema, supplied-subset) pair; distinct by SHA-256")
+                "(<= 16 per schema) plus the call without a value (twice); every accepted object also with its data pre-converted by a generic "
+                "untyped element (whole / as an envelope's payload / member by member), defaults checked at every nesting level of the data; "
+                "operation histories (no-value calls of the element and of its properties' elements and builds from data, 5-9 steps, over valid and "
+                "invalid class-level defaults of 8 kinds); a case is a (schema, supplied-subset) pair or a history prefix; distinct by SHA-256")
     stats = {}
     drv = core.Driver()
     try:
@@ -310,7 +565,7 @@ def run(ctx, scale=1.0):
             values = subsets[:16]
             if rng.random() < 0.3:
                 values.append({**full, "extra": 1})
-            check_case(drv, schema, values, out, stats)
+            check_case(drv, schema, values, out, stats, rng)
         # defaults on every element kind, called without a value
         for d in DEFAULTS:
             for s in ({"type": "string"}, {"type": "integer"}, {"type": "number"}, {"type": "array", "items": {"type": "number"}},
@@ -331,8 +586,13 @@ def run(ctx, scale=1.0):
             dsl_case(drv, rng, out, stats)
         for _ in range(int(n / 4)):
             inherit_case(rng, out, stats)
+        for _ in range(int(n * 0.4)):
+            history_case(rng, sg, vg, out, stats)
     finally:
         drv.close()
+    # report first what lies outside every listed region (a failure inside one is unexplained only because the model or the
+    # plain-data twin differs there, and a replay - which has no model at hand - cannot tell it from the listed finding)
+    out.failures.sort(key=lambda f: 0 if f.get("finding") is None and not f.get("region") else 1)
     out.stats = stats
     return out
 
@@ -345,7 +605,7 @@ def search(ctx, reason):
     return fresh[0] if fresh else None
 
 
-def _fails(schema, value, element=None):
+def _fails(schema, value, element=None, pre=None, original=None):
     out, stats = Outcome(), {}
     if element is not None:
         from harness import dsl
@@ -362,8 +622,46 @@ def _fails(schema, value, element=None):
     except Exception:  # noqa: BLE001
         omission_oracle(el, value, {}, out, stats)
         return bool(out.failures)
-    check_object(el, value, res, {}, out, stats, True)
-    return bool(out.failures)
+    if pre:
+        check_preconverted(el, value, res, pre, {}, out, stats, True)
+    else:
+        check_object(el, value, res, {}, out, stats, True)
+    return _recurs(out.failures, original) if original is not None else bool(out.failures)
+
+
+def _recurs(failures, original):
+    """Replays have no model at hand (every listed region is taken to apply): the failure is still there if something
+    unexplained is observed at the same place, or - when the original failure lay inside a listed region - the very
+    observation of the original failure."""
+    original = original or {}
+    if any(f.get("finding") is None for f in failures):
+        return True
+    if original.get("region") or original.get("finding"):
+        return any(f.get("what") == original.get("what") for f in failures)
+    return False
+
+
+def _sequence_fails(case, original=None):
+    """A (schema, values) sequence: go through the same history on a fresh element, up to the failing position."""
+    out, stats = Outcome(), {}
+    status, el = core.real_parse(case["schema"])
+    if status != "ok":
+        return False
+    core.dump_elem(el)
+    values = [arg_of(j) for j in case["values"]]
+    reals = [core.real_call(el, v) for v in values]
+    pre = case.get("pre") or [None] * len(values)
+    check_sequence(el, case["schema"], values, reals, [True] * len(values), pre, out, stats, upto=case["index"])
+    return _recurs([f for f in out.failures if f["case"].get("index") == case["index"]], original)
+
+
+def _history_fails(case, original=None):
+    out, stats = Outcome(), {}
+    status, el = core.real_parse(case["schema"])
+    if status != "ok":
+        return False
+    run_history(el, case["schema"], case["ops"], out, stats, upto=case["step"])
+    return _recurs([f for f in out.failures if f["case"].get("step") == case["step"]], original)
 
 
 def replay_finding(finding):
@@ -390,7 +688,11 @@ def replay(payload):
     case = payload.get("failure", {}).get("case")
     if case and "inherit" in case:
         return not _inherit_fails(case)
+    if case and "schema" in case and "ops" in case:
+        return not _history_fails(case, payload.get("failure"))
+    if case and "schema" in case and "values" in case:
+        return not _sequence_fails(case, payload.get("failure"))
     if not case or ("schema" not in case and "element" not in case):
         return True
     v = case["value"]
-    return not _fails(case.get("schema"), v, case.get("element"))
+    return not _fails(case.get("schema"), v, case.get("element"), case.get("pre"), payload.get("failure"))
